@@ -5,7 +5,7 @@ import datetime as dt
 from ref import pattern as rp, pep440, configsyn, legacy as rl
 from gen import patterns as gp
 
-SAFE_AFTER = [" ", '"', "'", ",", ";", "<", ")", " #", "\t"]
+SAFE_AFTER = [" ", '"', "'", ",", ";", "<", ")", " #", "\t", "_all.deb", "_x"]
 ASCII_FILLER = "abcdefghijklmnopqrstuvwxyz ABCDEFGHIJKLMNOPQRSTUVWXYZ_-=:;,.!?#%&*()<>/\\\"'`~+[]{}|^$"
 NON_ASCII = ["é", "ß", "ø", "中", "文", "😀", "ñ", "Ω", "ж", "́", " ", "​", "„", "“"]
 CONTROL = ["\t", "\x0b", "\x0c", "\x1c", "\x1d", "\x1e", "\x85", " ", " ", "\x00", "\x07", "\x1b"]
@@ -79,7 +79,12 @@ def gen_search_patterns(rng, tree, vpattern, pep_ok, count, first_marker, allow_
             shape = "A"      # F13 territory (derived PEP 440 pattern of non-dot separators), C15's LIFE reaches it through shape C
         if is_legacy and shape in ("G", "Q", "K"):
             shape = "B"
+        if not is_legacy and "TAG" in rp.parts_of(tree) and rng.random() < 0.12:
+            shape = "T"
+        elif not ini and not is_legacy and rng.random() < 0.05:
+            shape = "W"
         more = []
+        extra = {}
         if shape == "A":
             prefix, region, suffix = m + ": ", "{version}", ""
         elif shape == "B":
@@ -104,9 +109,19 @@ def gen_search_patterns(rng, tree, vpattern, pep_ok, count, first_marker, allow_
             # comment-like and separator characters *inside* a pattern (a value must not be cut at ' #' or ' ;')
             prefix, region = m + " = ", "{version}"
             suffix = rng.choice([" # latest", " ; stable", " #tag; x", ' # "quoted"'])
+        elif shape == "T":
+            # the release channel alone ("channel: beta"): a pattern, a marker and a line without any digit
+            m = "@kt" + chr(97 + marker_no % 26) + chr(97 + (marker_no // 26) % 26)
+            prefix, region, suffix = m + " channel: ", "TAG", rng.choice(["", " (pre-release)"])
+            extra = {"no_digits": True}
+        elif shape == "W":
+            # blanks at both ends are pattern text in TOML (INI cannot say this): "lib@k3 w 1.2.3;" is not an occurrence
+            prefix, region, suffix = " %s w " % m, "{version}", " "
+            extra = {"decoy": "lib%s w " % m}
         elif shape == "G":
             # literal text with characters that must be matched literally
-            lit = rng.choice(["(c)", "v.", "a+b", "what?", "x*", "f(x)", "\\[tag\\]", "<->", "::", "100%", "%(name)s", "sem%20ver", "%%"])
+            lit = rng.choice(["(c)", "v.", "a+b", "what?", "x*", "f(x)", "\\[tag\\]", "<->", "::", "100%", "%(name)s", "sem%20ver", "%%",
+                              "{0}", "({0})", "{1,3}", "a{2}", "{}", "{name}"])
             prefix, region, suffix = "%s %s " % (m, lit), "{version}", rng.choice(["", " " + lit])
         else:
             if not names:
@@ -131,7 +146,7 @@ def gen_search_patterns(rng, tree, vpattern, pep_ok, count, first_marker, allow_
         if ini and not configsyn.ini_expressible_pattern(raw):
             prefix, region, suffix, more = m + ": ", "{version}", "", []
             raw = prefix + region + suffix
-        out.append({"raw": raw, "prefix": prefix, "region": region, "suffix": suffix, "more": more})
+        out.append(dict({"raw": raw, "prefix": prefix, "region": region, "suffix": suffix, "more": more}, **extra))
     return out
 
 
@@ -147,6 +162,12 @@ def gen_file(rng, path, pats, mode, regime, digits_ok=True):
 
     def add_filler_lines(n):
         for _ in range(n):
+            if digits_ok and rng.random() < 0.05:
+                # text that looks like part of a diff (a changelog quoting one): content, never position information
+                k = rng.choice([1, 3, 12, 63, 998])
+                lines.append([rng.choice(["@@ -%d,7 +%d,7 @@" % (k, k), "@@ -%d +%d @@ def main():" % (k, k + 1),
+                                          "--- a/setup.py", "+++ b/setup.py", "-version = 1", "+version = 2"])])
+                continue
             lines.append([filler(rng, mode, digits_ok, 40)])
 
     add_filler_lines(rng.randint(0, 3))
@@ -156,7 +177,8 @@ def gen_file(rng, path, pats, mode, regime, digits_ok=True):
         idx = occ[i]
         p = pats[idx]
         segs = []
-        before = filler(rng, mode, digits_ok, 12)
+        no_digits = p.get("no_digits") and not (i + 1 < len(occ) and occ[i + 1] != idx)
+        before = filler(rng, mode, digits_ok and not no_digits, 12)
         if before and rng.random() < 0.7:
             segs.append(before + rng.choice([" ", "\t", "(", '"']))
         segs.append(unescape(p["prefix"]))
@@ -179,7 +201,10 @@ def gen_file(rng, path, pats, mode, regime, digits_ok=True):
             i += 1
             shared += 1
         tail = after_suffix
-        if rng.random() < 0.6:
+        if no_digits:
+            if rng.random() < 0.6:
+                tail += rng.choice([" ", ",", ";", ")"]) + filler(rng, mode, False, 12)
+        elif rng.random() < 0.6:
             tail += rng.choice(SAFE_AFTER) + filler(rng, mode, digits_ok, 12)
         if tail:
             segs.append(tail)
@@ -331,6 +356,13 @@ def gen_project(rng, mode="plain", syntaxes=None, allow_mixed=True, max_files=4,
                 pats.append({"raw": m + " pep={pep440_version}", "prefix": m + " pep=", "region": "{pep440_version}",
                              "suffix": ""})
             f = gen_file(rng, path, pats, mode, regime)
+            for p_ in pats:
+                if p_.get("decoy"):
+                    sep = {"lf": "\n", "crlf": "\r\n", "cr": "\r", "mixed": "\n"}[regime]
+                    if f["lines"] and f["lines"][-1]["end"] == "":
+                        f["lines"][-1]["end"] = sep
+                    f["lines"].append({"segs": [p_["decoy"] + vtext + ";"], "end": sep})
+                    f["blank_delimited"] = True
         files.append(f)
     # README style: the bare patterns {version} and {pep440_version} for one file; every {version} text also contains a
     # match of the second pattern, which the first one's match must shadow (documented: earlier patterns win)
